@@ -20,8 +20,9 @@ for d in $touched ""; do
   if ! go test -vet=off -count=1 -skip TestSequenceOnly "$p" > /tmp/vm_suite.txt 2>&1; then suite_ok="no($p)"; fi
 done
 cp "$demo" "$dir/zz_demo_test.go"
-go test -vet=off -count=1 -run 'Test' "./$dir" > /tmp/vm_demo_with.txt 2>&1; with=$?
+names=$(grep -oE '^func (Test[A-Za-z0-9_]+)' "$demo" | awk '{print $2}' | paste -sd'|')
+go test -vet=off -count=1 -run "^($names)\$" "./$dir" > /tmp/vm_demo_with.txt 2>&1; with=$?
 git checkout -q -- . 
-go test -vet=off -count=1 -run 'Test' "./$dir" > /tmp/vm_demo_without.txt 2>&1; without=$?
+go test -vet=off -count=1 -run "^($names)\$" "./$dir" > /tmp/vm_demo_without.txt 2>&1; without=$?
 rm -f "$dir/zz_demo_test.go"; git clean -fdq
 echo "RESULT suite_passes_with_mutation=$suite_ok demo_with_mutation_exit=$with demo_without_exit=$without dir=$dir"
